@@ -53,6 +53,37 @@ func runC20(c *Ctx) {
 	// the address dialled is the configured one (shared with C19)
 	c19Addresses(c, "dial-errors")
 	c20PoolSend(c, "success-after-write")
+	c20WriteDeadlineOnly(c)
+}
+
+// c20WriteDeadlineOnly: a send path may bound its own write, and nothing else, on the connection it sends on. The TCP
+// connections are shared with a receive loop (the inbound connection a response is returned on, the connection to a
+// backend whose answers are read): SetDeadline or SetReadDeadline on a send path arms the reader's deadline too, the
+// reader's next Read fails with a time-out although the peer is healthy, the receive loop closes the connection, and the
+// next Send finds a connection that the proxy itself has torn down.
+func c20WriteDeadlineOnly(c *Ctx) {
+	w := c.w
+	rule := "failure-cleanup"
+	var roots []*ssa.Function
+	for _, sp := range sendFns {
+		if f := w.Fn(sp.Fn); f != nil {
+			roots = append(roots, f)
+		}
+	}
+	set := w.reachableFrom(roots, false)
+	n := 0
+	for _, fn := range w.All {
+		if !set[fn] || !w.isMain(fn) {
+			continue
+		}
+		for _, cs := range w.callsIn(fn) {
+			if strings.HasSuffix(cs.Name, ".SetDeadline") || strings.HasSuffix(cs.Name, ".SetReadDeadline") {
+				n++
+				c.bad(rule, fmt.Sprintf("%s/read-deadline-on-send-path#%d", w.fname(fn), n), w.ipos(cs.In), cs.Name+" on a send path also arms the read deadline of a connection that a receive loop of the proxy reads: some time after a send the reader times out on a healthy connection, the proxy closes it and the next message to that peer fails or goes over a new connection (use SetWriteDeadline to bound a write)")
+			}
+		}
+	}
+	c.okTrivial(rule, "send-paths/write-deadline-only", "-", fmt.Sprintf("no SetDeadline/SetReadDeadline below the %d send functions", len(roots)))
 }
 
 // c20Success: with all dispatch sites failing, no nil is returned.
